@@ -63,7 +63,8 @@ static inline size_t rp_sum(const size_t *rsizes, size_t n) {
 /* ---- pub_expand as an oracle (gates units; the real body is checked in the C07 units):
  *      fills the non-first members of every ring of pubs[128] ---- */
 #ifdef RP_PUB_EXPAND
-struct g_pe_log { int n; int exp; size_t rings; size_t rs_k; secp256k1_gej *pubs; size_t *rsizes; const secp256k1_ge *genp; } g_pe;
+struct g_pe_log { int n; int exp; size_t rings; size_t rs_k; secp256k1_gej *pubs; size_t *rsizes; const secp256k1_ge *genp; secp256k1_ge genp_v; } g_pe;
+#define g_pe_genp_v g_pe.genp_v
 #define g_pe_n g_pe.n
 #define g_pe_exp g_pe.exp
 #define g_pe_rings g_pe.rings
@@ -72,15 +73,14 @@ struct g_pe_log { int n; int exp; size_t rings; size_t rs_k; secp256k1_gej *pubs
 #define g_pe_rsizes g_pe.rsizes
 #define g_pe_genp g_pe.genp
 static void secp256k1_rangeproof_pub_expand(secp256k1_gej *pubs, int exp, size_t *rsizes, size_t rings, const secp256k1_ge* genp)
-__CPROVER_requires(exp < 19 && rings >= 1 && rings <= 32)
+__CPROVER_requires(exp < 19)
 __CPROVER_requires(__CPROVER_r_ok(rsizes, rings * sizeof(size_t)) && __CPROVER_r_ok(genp, sizeof(*genp)) && rp_ge_ok(genp))
-__CPROVER_requires(g_rp_k < rings ==> (rsizes[g_rp_k] >= 1 && rsizes[g_rp_k] <= 4))
-__CPROVER_requires(__CPROVER_w_ok(pubs, 128 * sizeof(secp256k1_gej)))
+__CPROVER_requires(rings > 32 || __CPROVER_rw_ok(pubs, rp_sum(rsizes, rings) * sizeof(secp256k1_gej)))
 __CPROVER_assigns(__CPROVER_object_whole(pubs), g_pe)
 __CPROVER_ensures(g_pe_n == __CPROVER_old(g_pe_n) + 1)
 __CPROVER_ensures(__CPROVER_old(g_pe_n) == 0
-    ? (g_pe_exp == exp && g_pe_rings == rings && g_pe_pubs == pubs && g_pe_rsizes == rsizes && g_pe_genp == genp && (g_rp_k < rings ==> g_pe_rs_k == rsizes[g_rp_k]))
-    : (RP_KEEP(g_pe_exp) && RP_KEEP(g_pe_rings) && RP_KEEP(g_pe_pubs) && RP_KEEP(g_pe_rsizes) && RP_KEEP(g_pe_genp) && RP_KEEP(g_pe_rs_k)))
+    ? (g_pe_exp == exp && g_pe_rings == rings && g_pe_pubs == pubs && g_pe_rsizes == rsizes && g_pe_genp == genp && GE_EQ(g_pe_genp_v, genp) && (g_rp_k < rings ==> g_pe_rs_k == rsizes[g_rp_k]))
+    : (RP_KEEP(g_pe_exp) && RP_KEEP(g_pe_rings) && RP_KEEP(g_pe_pubs) && RP_KEEP(g_pe_rsizes) && RP_KEEP(g_pe_genp) && GE_KEEP(g_pe_genp_v) && RP_KEEP(g_pe_rs_k)))
 ;
 #endif
 
@@ -110,11 +110,12 @@ struct g_gr_log { int n; const unsigned char *nonce; const unsigned char *proof;
 #define GR_HDR_KEEP(j) (g_gr_hdr[j] == __CPROVER_old(g_gr_hdr[j]))
 static int secp256k1_rangeproof_genrand(const secp256k1_hash_ctx *hash_ctx, secp256k1_scalar *sec, secp256k1_scalar *s, unsigned char *message,
  size_t *rsizes, size_t rings, const unsigned char *nonce, const secp256k1_ge *commit, const unsigned char *proof, size_t len, const secp256k1_ge* genp)
-__CPROVER_requires(hash_ctx != NULL && len <= 10 && rings >= 1 && rings <= 32)
+__CPROVER_requires(hash_ctx != NULL && len <= 10)
 __CPROVER_requires(__CPROVER_r_ok(nonce, 32) && __CPROVER_r_ok(proof, len) && __CPROVER_r_ok(commit, sizeof(*commit)) && __CPROVER_r_ok(genp, sizeof(*genp)))
 __CPROVER_requires(__CPROVER_r_ok(rsizes, rings * sizeof(size_t)))
-__CPROVER_requires(g_rp_k < rings ==> (rsizes[g_rp_k] >= 1 && rsizes[g_rp_k] <= 4))
-__CPROVER_requires(__CPROVER_w_ok(sec, 32 * sizeof(secp256k1_scalar)) && __CPROVER_w_ok(s, 128 * sizeof(secp256k1_scalar)) && (message == NULL || __CPROVER_rw_ok(message, 4096)))
+/* what the body touches: sec[0..rings), s[0..sum rsizes), message[0 .. 128*(rings-1) + 32*rsizes[rings-1]) */
+__CPROVER_requires(rings == 0 || rings > 32 || (__CPROVER_w_ok(sec, rings * sizeof(secp256k1_scalar)) && __CPROVER_w_ok(s, rp_sum(rsizes, rings) * sizeof(secp256k1_scalar)) &&
+                   (message == NULL || __CPROVER_rw_ok(message, 128 * (rings - 1) + 32 * rsizes[rings - 1]))))
 __CPROVER_assigns(__CPROVER_object_whole(sec), __CPROVER_object_whole(s))
 __CPROVER_assigns(message != NULL: __CPROVER_object_whole(message))
 __CPROVER_assigns(g_gr)
@@ -165,7 +166,7 @@ static int secp256k1_fe_impl_set_b32_limit(secp256k1_fe *r, const unsigned char 
 __CPROVER_requires(__CPROVER_w_ok(r, sizeof(*r)) && __CPROVER_r_ok(a, 32))
 __CPROVER_assigns(*r)
 __CPROVER_ensures((__CPROVER_return_value == 0 || __CPROVER_return_value == 1) && (r->n[0] >> 52) == 0 && (r->n[1] >> 52) == 0 && (r->n[2] >> 52) == 0 && (r->n[3] >> 52) == 0 && (r->n[4] >> 48) == 0)
-__CPROVER_ensures(__CPROVER_return_value == (be256(a) < P_()) && fval(r) == be256(a))
+__CPROVER_ensures(__CPROVER_return_value == (be256(a) < P_()) && (__CPROVER_return_value == 1 ==> fval(r) == be256(a)))
 ;
 #endif
 
@@ -173,7 +174,7 @@ __CPROVER_ensures(__CPROVER_return_value == (be256(a) < P_()) && fval(r) == be25
  * (B) call-site stubs
  * ==================================================================================================== */
 #if defined(RP_STUB_READERS) || defined(RP_STUB_XQUAD) || defined(RP_STUB_ISSQUARE) || defined(RP_STUB_ADD_GE) || defined(RP_STUB_ADD_VAR) || \
-    defined(RP_STUB_SHA) || defined(RP_STUB_PED_SMALL) || defined(RP_STUB_PED) || defined(RP_STUB_BORRO_VERIFY) || defined(RP_STUB_BORRO_SIGN) || \
+    defined(RP_STUB_SHA) || defined(RP_STUB_SHA_KEYED) || defined(RP_STUB_PED_SMALL) || defined(RP_STUB_PED) || defined(RP_STUB_BORRO_VERIFY) || defined(RP_STUB_BORRO_SIGN) || \
     defined(RP_STUB_SET_GEJ) || defined(RP_STUB_ECMULT) || defined(RP_STUB_GET_B32) || defined(RP_STUB_SCALAR_ALG) || defined(RP_STUB_MEMCPY) || defined(RP_STUB_MEMSET) || defined(RP_STUB_CLEAR)
 /* the real definitions first */
 #include "src/field_impl.h"
@@ -272,7 +273,7 @@ struct g_xq_log { int n, hit, v, all /* conjunction of all verdicts so far */; s
 #define g_xq_r g_xq.r
 static int rp_stub_ge_set_xquad(secp256k1_ge *r, const secp256k1_fe *x) {
     secp256k1_ge t = nondet_rp_ge(); int ret = nondet_rp_int();
-    RP_PRE(fe_mag(x, 1), "ge_set_xquad gets a magnitude-1 x");
+    RP_PRE(fe_mag(x, 8), "ge_set_xquad: x is a valid field element (fe_sqr takes magnitude <= 8)");
     __CPROVER_assume(ge_ok1(&t) && (ret == 0 || ret == 1));
     t.x = *x; t.infinity = 0;                     /* r->x = *x is a copy in the code, not algebra */
     if (g_xq.n == g_xq_watch) { g_xq.hit = 1; g_xq.v = ret; g_xq.x = *x; g_xq.r = t; }
@@ -300,7 +301,9 @@ static int rp_stub_fe_is_square_var(const secp256k1_fe *a) {
 
 #ifdef RP_STUB_ADD_GE    /* r = a + b (b affine): arbitrary group element in representation range */
 int g_ag_watch;
-struct g_ag_log { int n, hit, last_inf /* infinity flag of the most recent result */; secp256k1_gej *rp; const secp256k1_gej *ap; const secp256k1_ge *bp; secp256k1_ge b; secp256k1_gej r; } g_ag;
+struct g_ag_log { int n, hit, last_inf /* infinity flag of the most recent result */; secp256k1_gej *rp; const secp256k1_gej *ap; const secp256k1_ge *bp; secp256k1_gej a; secp256k1_ge b, last_b /* second operand of the most recent call */; secp256k1_gej r; } g_ag;
+#define g_ag_a g_ag.a
+#define g_ag_last_b g_ag.last_b
 #define g_ag_n g_ag.n
 #define g_ag_hit g_ag.hit
 #define g_ag_last_inf g_ag.last_inf
@@ -311,10 +314,11 @@ struct g_ag_log { int n, hit, last_inf /* infinity flag of the most recent resul
 #define g_ag_r g_ag.r
 static void rp_stub_gej_add_ge_var(secp256k1_gej *r, const secp256k1_gej *a, const secp256k1_ge *b, secp256k1_fe *rzr) {
     secp256k1_gej t = nondet_rp_gej();
-    RP_PRE(rzr == NULL && rp_gej_ok(a) && rp_ge_ok(b), "gej_add_ge_var operands in representation range");
+    RP_PRE(rp_gej_ok(a) && rp_ge_ok(b), "gej_add_ge_var operands in representation range");
     __CPROVER_assume(gej_ok(&t));
-    if (g_ag.n == g_ag_watch) { g_ag.hit = 1; g_ag.rp = r; g_ag.ap = a; g_ag.bp = b; g_ag.b = *b; g_ag.r = t; }
-    g_ag.last_inf = t.infinity; g_ag.n++;
+    if (g_ag.n == g_ag_watch) { g_ag.hit = 1; g_ag.rp = r; g_ag.ap = a; g_ag.bp = b; g_ag.a = *a; g_ag.b = *b; g_ag.r = t; }
+    g_ag.last_inf = t.infinity; g_ag.last_b = *b; g_ag.n++;
+    if (rzr != NULL) { rzr->n[0] = nondet_rp_u64(); rzr->n[1] = nondet_rp_u64(); rzr->n[2] = nondet_rp_u64(); rzr->n[3] = nondet_rp_u64(); rzr->n[4] = nondet_rp_u64(); }
     *r = t;
 }
 #endif
@@ -322,14 +326,16 @@ static void rp_stub_gej_add_ge_var(secp256k1_gej *r, const secp256k1_gej *a, con
 #ifdef RP_STUB_ADD_VAR   /* Jacobian add / double inside pub_expand */
 static void rp_stub_gej_add_var(secp256k1_gej *r, const secp256k1_gej *a, const secp256k1_gej *b, secp256k1_fe *rzr) {
     secp256k1_gej t = nondet_rp_gej();
-    RP_PRE(rzr == NULL && rp_gej_ok(a) && rp_gej_ok(b), "gej_add_var operands in representation range");
+    RP_PRE(rp_gej_ok(a) && rp_gej_ok(b), "gej_add_var operands in representation range");
     __CPROVER_assume(gej_ok(&t));
+    if (rzr != NULL) { rzr->n[0] = nondet_rp_u64(); rzr->n[1] = nondet_rp_u64(); rzr->n[2] = nondet_rp_u64(); rzr->n[3] = nondet_rp_u64(); rzr->n[4] = nondet_rp_u64(); }
     *r = t;
 }
 static void rp_stub_gej_double_var(secp256k1_gej *r, const secp256k1_gej *a, secp256k1_fe *rzr) {
     secp256k1_gej t = nondet_rp_gej();
-    RP_PRE(rzr == NULL && rp_gej_ok(a), "gej_double_var operand in representation range");
+    RP_PRE(rp_gej_ok(a), "gej_double_var operand in representation range");
     __CPROVER_assume(gej_ok(&t));
+    if (rzr != NULL) { rzr->n[0] = nondet_rp_u64(); rzr->n[1] = nondet_rp_u64(); rzr->n[2] = nondet_rp_u64(); rzr->n[3] = nondet_rp_u64(); rzr->n[4] = nondet_rp_u64(); }
     *r = t;
 }
 #endif
@@ -357,8 +363,48 @@ static void rp_stub_sha256_finalize(const secp256k1_hash_ctx *hash_ctx, secp256k
 }
 #endif
 
+
+#ifdef RP_STUB_SHA_KEYED /* sha256 stream stubs for the Borromean unit: hash computations are identified BY CONTENT, not by ordinal.
+   A challenge hash ends with two 4-byte writes be32(ring) || be32(position); the harness fixes a key (g_kh_ki, g_kh_kj) that
+   nothing assigns; the finalize of the hash whose last two 4-byte writes equal the key records digest, length, initial state
+   and the byte at stream position g_wpos.  The closing hash is identified by its total length g_kh_clen (33 per ring + |m|,
+   never the length of a challenge hash).  Same meaning as the stream contracts of hash_log.h otherwise. */
+uint32_t g_kh_ki, g_kh_kj; uint64_t g_kh_clen;      /* selectors: never assigned by code or stubs */
+struct g_kh_log { int cur_hit, n4, fin, hit, cfin, nfin; unsigned char cur_byte, byte, l4a[4], l4b[4], dig[32], cdig[32]; uint32_t cur_s0, s0; uint64_t end; } g_kh;
+unsigned char nondet_rp_uchar(void);
+static void rp_stub_sha256_write(const secp256k1_hash_ctx *hash_ctx, secp256k1_sha256 *hash, const unsigned char *data, size_t len) {
+    uint64_t ob = hash->bytes;
+    RP_PRE(hash_ctx != NULL && (len == 0 || __CPROVER_r_ok(data, len)) && ob + len >= len, "sha256_write reads len bytes");
+    if (ob == 0) { g_kh.cur_hit = 0; g_kh.cur_s0 = hash->s[0]; g_kh.n4 = 0; }
+    if (ob <= g_wpos && g_wpos < ob + len) { g_kh.cur_hit = 1; g_kh.cur_byte = data[g_wpos - ob]; }
+    if (len == 4) { g_kh.l4a[0] = g_kh.l4b[0]; g_kh.l4a[1] = g_kh.l4b[1]; g_kh.l4a[2] = g_kh.l4b[2]; g_kh.l4a[3] = g_kh.l4b[3];
+                    g_kh.l4b[0] = data[0]; g_kh.l4b[1] = data[1]; g_kh.l4b[2] = data[2]; g_kh.l4b[3] = data[3]; if (g_kh.n4 < 2) g_kh.n4++; }
+    else g_kh.n4 = 0;
+    hash->s[0] = (uint32_t)nondet_rp_u64(); hash->s[1] = (uint32_t)nondet_rp_u64(); hash->s[2] = (uint32_t)nondet_rp_u64(); hash->s[3] = (uint32_t)nondet_rp_u64();
+    hash->s[4] = (uint32_t)nondet_rp_u64(); hash->s[5] = (uint32_t)nondet_rp_u64(); hash->s[6] = (uint32_t)nondet_rp_u64(); hash->s[7] = (uint32_t)nondet_rp_u64();
+    hash->bytes = ob + len;
+}
+static void rp_stub_sha256_finalize(const secp256k1_hash_ctx *hash_ctx, secp256k1_sha256 *hash, unsigned char *out32) {
+    int i;
+    RP_PRE(hash_ctx != NULL && __CPROVER_w_ok(out32, 32), "sha256_finalize writes 32 bytes");
+    for (i = 0; i < 32; i++) out32[i] = nondet_rp_uchar();
+    if (g_kh.n4 == 2 && !g_kh.fin &&
+        g_kh.l4a[0] == (unsigned char)(g_kh_ki >> 24) && g_kh.l4a[1] == (unsigned char)(g_kh_ki >> 16) && g_kh.l4a[2] == (unsigned char)(g_kh_ki >> 8) && g_kh.l4a[3] == (unsigned char)g_kh_ki &&
+        g_kh.l4b[0] == (unsigned char)(g_kh_kj >> 24) && g_kh.l4b[1] == (unsigned char)(g_kh_kj >> 16) && g_kh.l4b[2] == (unsigned char)(g_kh_kj >> 8) && g_kh.l4b[3] == (unsigned char)g_kh_kj) {
+        g_kh.fin = 1; g_kh.end = hash->bytes; g_kh.hit = g_kh.cur_hit; g_kh.byte = g_kh.cur_byte; g_kh.s0 = g_kh.cur_s0;
+        for (i = 0; i < 32; i++) g_kh.dig[i] = out32[i];
+    }
+    if (hash->bytes == g_kh_clen && !g_kh.cfin) { g_kh.cfin = 1; for (i = 0; i < 32; i++) g_kh.cdig[i] = out32[i]; }
+    g_kh.nfin++; g_kh.n4 = 0;
+    hash->bytes = nondet_rp_u64();
+}
+#define KH_RESET() do { g_kh.cur_hit = 0; g_kh.n4 = 0; g_kh.fin = 0; g_kh.hit = 0; g_kh.cfin = 0; g_kh.nfin = 0; } while (0)
+#endif
+
 #ifdef RP_STUB_PED_SMALL /* value * H */
-struct g_ps_log { int n; uint64_t gn0; const secp256k1_ge *genp0; secp256k1_gej *rp0; } g_ps;
+struct g_ps_log { int n; uint64_t gn0; const secp256k1_ge *genp0; secp256k1_gej *rp0; secp256k1_ge genp0_v; secp256k1_gej r0; } g_ps;
+#define g_ps_genp0_v g_ps.genp0_v
+#define g_ps_r0 g_ps.r0
 #define g_ps_n g_ps.n
 #define g_ps_gn0 g_ps.gn0
 #define g_ps_genp0 g_ps.genp0
@@ -367,7 +413,7 @@ static void rp_stub_pedersen_ecmult_small(secp256k1_gej *r, uint64_t gn, const s
     secp256k1_gej t = nondet_rp_gej();
     RP_PRE(rp_ge_ok(genp), "pedersen_ecmult_small generator in representation range");
     __CPROVER_assume(gej_ok(&t));
-    if (g_ps.n == 0) { g_ps.gn0 = gn; g_ps.genp0 = genp; g_ps.rp0 = r; }
+    if (g_ps.n == 0) { g_ps.gn0 = gn; g_ps.genp0 = genp; g_ps.rp0 = r; g_ps.genp0_v = *genp; g_ps.r0 = t; }
     g_ps.n++;
     *r = t;
 }
@@ -395,10 +441,11 @@ static void rp_stub_pedersen_ecmult(const secp256k1_ecmult_gen_context *ecmult_g
 #endif
 
 #ifdef RP_STUB_BORRO_VERIFY  /* Borromean ring-signature verification: verdict oracle with argument log (first call) */
-struct g_bv_log { int n, v, pub_inf_k; secp256k1_scalar *ev; const unsigned char *e0, *m; const secp256k1_scalar *s; const secp256k1_gej *pubs; const size_t *rsizes;
+struct g_bv_log { int n, v, all /* conjunction of all verdicts so far */, pub_inf_k; secp256k1_scalar *ev; const unsigned char *e0, *m; const secp256k1_scalar *s; const secp256k1_gej *pubs; const size_t *rsizes;
     size_t nrings, mlen, rs_k, npub; secp256k1_scalar s_k; unsigned char m_b, e0_b; } g_bv;
 #define g_bv_n g_bv.n
 #define g_bv_v g_bv.v
+#define g_bv_and g_bv.all
 #define g_bv_ev g_bv.ev
 #define g_bv_e0 g_bv.e0
 #define g_bv_m g_bv.m
@@ -415,21 +462,25 @@ struct g_bv_log { int n, v, pub_inf_k; secp256k1_scalar *ev; const unsigned char
 #define g_bv_pub_inf_k g_bv.pub_inf_k
 static int rp_stub_borromean_verify(const secp256k1_hash_ctx *hash_ctx, secp256k1_scalar *evalues, const unsigned char *e0,
  const secp256k1_scalar *s, const secp256k1_gej *pubs, const size_t *rsizes, size_t nrings, const unsigned char *m, size_t mlen) {
-    int ret = nondet_rp_int(); size_t np;
+    int ret = nondet_rp_int(); size_t np = 0;
     __CPROVER_assume(ret == 0 || ret == 1);
-    RP_PRE(hash_ctx != NULL && __CPROVER_r_ok(e0, 32) && nrings >= 1 && nrings <= 32 && mlen == 32 && __CPROVER_r_ok(m, mlen), "borromean_verify: e0, message, ring count");
+    /* the real body's VERIFY_CHECKs and reads: non-NULL arguments, nrings > 0, 32 bytes of e0, mlen bytes of m, nrings ring sizes,
+     * sum(rsizes) scalars (each a valid scalar) and keys, and sum(rsizes) challenges written if evalues != NULL */
+    RP_PRE(hash_ctx != NULL && __CPROVER_r_ok(e0, 32) && nrings >= 1 && (mlen == 0 || __CPROVER_r_ok(m, mlen)), "borromean_verify: e0, message, ring count");
     RP_PRE(__CPROVER_r_ok(rsizes, nrings * sizeof(size_t)), "borromean_verify: nrings ring sizes readable");
-    RP_PRE(g_rp_k >= nrings || (rsizes[g_rp_k] >= 1 && rsizes[g_rp_k] <= 4), "borromean_verify: every ring size in 1..4");
-    np = rp_sum(rsizes, nrings);
-    RP_PRE(__CPROVER_r_ok(s, np * sizeof(secp256k1_scalar)) && __CPROVER_r_ok(pubs, np * sizeof(secp256k1_gej)), "borromean_verify: sum(rsizes) scalars and keys readable");
-    RP_PRE(g_rp_k >= np || rp_scalar_ok(&s[g_rp_k]), "borromean_verify: every scalar < n");
-    RP_PRE(evalues == NULL || __CPROVER_w_ok(evalues, np * sizeof(secp256k1_scalar)), "borromean_verify: sum(rsizes) challenges writable");
+    if (nrings <= 32) {
+        np = rp_sum(rsizes, nrings);
+        RP_PRE(__CPROVER_r_ok(s, np * sizeof(secp256k1_scalar)) && __CPROVER_r_ok(pubs, np * sizeof(secp256k1_gej)), "borromean_verify: sum(rsizes) scalars and keys readable");
+        RP_PRE(g_rp_k >= np || rp_scalar_ok(&s[g_rp_k]), "borromean_verify: every scalar < n");
+        RP_PRE(evalues == NULL || __CPROVER_w_ok(evalues, np * sizeof(secp256k1_scalar)), "borromean_verify: sum(rsizes) challenges writable");
+    }
     if (g_bv.n == 0) {
         g_bv.v = ret; g_bv.ev = evalues; g_bv.e0 = e0; g_bv.m = m; g_bv.s = s; g_bv.pubs = pubs; g_bv.rsizes = rsizes; g_bv.nrings = nrings; g_bv.mlen = mlen; g_bv.npub = np;
         if (g_rp_k < nrings) g_bv.rs_k = rsizes[g_rp_k];
         if (g_rp_k < np) { g_bv.s_k = s[g_rp_k]; g_bv.pub_inf_k = pubs[g_rp_k].infinity; }
-        if (g_rp_b < 32) { g_bv.m_b = m[g_rp_b]; g_bv.e0_b = e0[g_rp_b]; }
+        if (g_rp_b < 32) { if (g_rp_b < mlen) g_bv.m_b = m[g_rp_b]; g_bv.e0_b = e0[g_rp_b]; }
     }
+    g_bv.all = g_bv.all && ret;
     g_bv.n++;
     if (evalues != NULL) __CPROVER_havoc_object(evalues);
     return ret;
@@ -454,16 +505,16 @@ static int rp_stub_borromean_sign(const secp256k1_hash_ctx *hash_ctx, const secp
  const size_t *rsizes, const size_t *secidx, size_t nrings, const unsigned char *m, size_t mlen) {
     int ret = nondet_rp_int(); size_t np;
     __CPROVER_assume(ret == 0 || ret == 1);
-    RP_PRE(hash_ctx != NULL && ecmult_gen_ctx != NULL && __CPROVER_w_ok(e0, 32) && nrings >= 1 && nrings <= 32 && mlen == 32 && __CPROVER_r_ok(m, mlen), "borromean_sign: e0, message, ring count");
+    RP_PRE(hash_ctx != NULL && ecmult_gen_ctx != NULL && __CPROVER_w_ok(e0, 32) && nrings >= 1 && (mlen == 0 || __CPROVER_r_ok(m, mlen)), "borromean_sign: e0, message, ring count");
     RP_PRE(__CPROVER_r_ok(rsizes, nrings * sizeof(size_t)) && __CPROVER_r_ok(secidx, nrings * sizeof(size_t)), "borromean_sign: ring sizes and secret indices readable");
     RP_PRE(__CPROVER_r_ok(k, nrings * sizeof(secp256k1_scalar)) && __CPROVER_r_ok(sec, nrings * sizeof(secp256k1_scalar)), "borromean_sign: nrings nonces and secrets readable");
-    RP_PRE(g_rp_k >= nrings || (rsizes[g_rp_k] >= 1 && rsizes[g_rp_k] <= 4 && secidx[g_rp_k] < rsizes[g_rp_k]), "borromean_sign: ring sizes in 1..4, secret index inside its ring");
-    np = rp_sum(rsizes, nrings);
-    RP_PRE(__CPROVER_rw_ok(s, np * sizeof(secp256k1_scalar)) && __CPROVER_r_ok(pubs, np * sizeof(secp256k1_gej)), "borromean_sign: sum(rsizes) scalars writable and keys readable");
+    RP_PRE(g_rp_k >= nrings || secidx[g_rp_k] < rsizes[g_rp_k], "borromean_sign: secret index inside its ring (the body writes s[count + secidx[i]])");
+    np = nrings <= 32 ? rp_sum(rsizes, nrings) : 0;
+    RP_PRE(nrings > 32 || (__CPROVER_rw_ok(s, np * sizeof(secp256k1_scalar)) && __CPROVER_r_ok(pubs, np * sizeof(secp256k1_gej))), "borromean_sign: sum(rsizes) scalars writable and keys readable");
     if (g_bs.n == 0) {
         g_bs.e0 = e0; g_bs.m = m; g_bs.nrings = nrings; g_bs.mlen = mlen; g_bs.pubs = pubs; g_bs.s = s; g_bs.npub = np;
         if (g_rp_k < nrings) { g_bs.rs_k = rsizes[g_rp_k]; g_bs.si_k = secidx[g_rp_k]; }
-        if (g_rp_b < 32) g_bs.m_b = m[g_rp_b];
+        if (g_rp_b < 32 && g_rp_b < mlen) g_bs.m_b = m[g_rp_b];
     }
     g_bs.n++;
     __CPROVER_havoc_object(e0);        /* frame over-approximated to the whole object holding e0 (the proof buffer) */
@@ -472,38 +523,52 @@ static int rp_stub_borromean_sign(const secp256k1_hash_ctx *hash_ctx, const secp
 }
 #endif
 
-#ifdef RP_STUB_SET_GEJ   /* Jacobian -> affine */
-int g_sg_watch;
-struct g_sgw_log { int n, hit; secp256k1_ge r; } g_sgw;
+#ifdef RP_STUB_SET_GEJ   /* Jacobian -> affine.  Watch by call number (g_sg_watch >= 0) or BY VALUE (g_sg_by_value: first call whose
+                            input equals g_sg_key, e.g. the logged result of an ecmult) */
+int g_em_hit_idx;   /* call number of the watched ecmult call (set by the ecmult stub), -1 before */
+int g_sg_watch, g_sg_by_value /* 0: by call number, 1: by input value, 2: the call with the same call number as the watched ecmult call */; secp256k1_gej g_sg_key;
+struct g_sgw_log { int n, hit; secp256k1_ge r; secp256k1_gej in; } g_sgw;
 #define g_sg_n g_sgw.n
 #define g_sg_hit g_sgw.hit
 #define g_sg_r g_sgw.r
+#define GEJ_VEQ(p, q) (FE_EQ((p).x, (q).x) && FE_EQ((p).y, (q).y) && FE_EQ((p).z, (q).z) && (p).infinity == (q).infinity)
 static void rp_stub_ge_set_gej_var(secp256k1_ge *r, secp256k1_gej *a) {
-    secp256k1_ge t = nondet_rp_ge(); secp256k1_gej u = nondet_rp_gej(); int inf = a->infinity;
+    secp256k1_ge t = nondet_rp_ge(); secp256k1_gej u = nondet_rp_gej(), in = *a; int inf = a->infinity;
     RP_PRE(rp_gej_ok(a), "ge_set_gej_var operand in representation range");
     __CPROVER_assume(ge_ok1(&t) && gej_ok(&u));
     t.infinity = inf; u.infinity = inf;
-    if (g_sgw.n == g_sg_watch) { g_sgw.hit = 1; g_sgw.r = t; }
+    if (!g_sgw.hit && (g_sg_by_value == 2 ? g_sgw.n == g_em_hit_idx : g_sg_by_value == 1 ? GEJ_VEQ(in, g_sg_key) : g_sgw.n == g_sg_watch)) { g_sgw.hit = 1; g_sgw.r = t; g_sgw.in = in; }
     g_sgw.n++;
     *a = u;                              /* the input may be rescaled */
     *r = t;
 }
 #endif
 
-#ifdef RP_STUB_ECMULT    /* na*A + ng*G */
-int g_em_watch;
-struct g_em_log { int n, hit, rinf; const secp256k1_gej *ap; const secp256k1_scalar *ngp; secp256k1_scalar na; } g_em;
+#ifdef RP_STUB_ECMULT    /* na*A + ng*G.  Watch by call number (g_em_watch >= 0) or BY VALUE (g_em_by_value: first call whose point and
+                            G-scalar equal g_em_key_a / g_em_key_ng) */
+int g_em_watch, g_em_by_value; secp256k1_gej g_em_key_a; secp256k1_scalar g_em_key_ng;
+struct g_em_log { int n, hit, rinf, has_na, has_ng; const secp256k1_gej *ap; const secp256k1_scalar *ngp; secp256k1_scalar na, ng; secp256k1_gej a, r; } g_em;
 #define g_em_n g_em.n
 #define g_em_hit g_em.hit
 #define g_em_rinf g_em.rinf
 #define g_em_ap g_em.ap
 #define g_em_ngp g_em.ngp
 #define g_em_na g_em.na
+#define g_em_ng g_em.ng
+#define g_em_a g_em.a
+#define g_em_r g_em.r
+#ifndef GEJ_VEQ
+#define GEJ_VEQ(p, q) (FE_EQ((p).x, (q).x) && FE_EQ((p).y, (q).y) && FE_EQ((p).z, (q).z) && (p).infinity == (q).infinity)
+#endif
 static void rp_stub_ecmult(secp256k1_gej *r, const secp256k1_gej *a, const secp256k1_scalar *na, const secp256k1_scalar *ng) {
-    secp256k1_gej t = nondet_rp_gej();
-    RP_PRE(rp_gej_ok(a) && na != NULL && ng != NULL && rp_scalar_ok(na) && rp_scalar_ok(ng), "ecmult operands in representation range");
+    secp256k1_gej t = nondet_rp_gej(), in = *a;
+    RP_PRE(rp_gej_ok(a) && (na == NULL || rp_scalar_ok(na)) && (ng == NULL || rp_scalar_ok(ng)), "ecmult operands in representation range");
     __CPROVER_assume(gej_ok(&t));
-    if (g_em.n == g_em_watch) { g_em.hit = 1; g_em.rinf = t.infinity; g_em.ap = a; g_em.ngp = ng; g_em.na = *na; }
+    if (!g_em.hit && (g_em_by_value ? (ng != NULL && SC_EQ(*ng, g_em_key_ng) && GEJ_VEQ(in, g_em_key_a)) : g_em.n == g_em_watch)) {
+        g_em.hit = 1; g_em_hit_idx = g_em.n; g_em.rinf = t.infinity; g_em.ap = a; g_em.ngp = ng; g_em.a = in; g_em.r = t; g_em.has_na = na != NULL; g_em.has_ng = ng != NULL;
+        if (na != NULL) g_em.na = *na;
+        if (ng != NULL) g_em.ng = *ng;
+    }
     g_em.n++;
     *r = t;
 }
@@ -586,7 +651,7 @@ static void *rp_stub_memcpy(void *dst, const void *src, size_t n) {
 # define secp256k1_gej_add_var rp_stub_gej_add_var
 # define secp256k1_gej_double_var rp_stub_gej_double_var
 #endif
-#ifdef RP_STUB_SHA
+#if defined(RP_STUB_SHA) || defined(RP_STUB_SHA_KEYED)
 # define secp256k1_sha256_write rp_stub_sha256_write
 # define secp256k1_sha256_finalize rp_stub_sha256_finalize
 #endif
